@@ -3,7 +3,43 @@ import GnpyModel
 /- driver handlers for property C16 (ops are named "c16.<name>") -/
 open Lean
 namespace Gnpy.Drv.C16
+open Gnpy.Plan
 
-def handlers : List (String × Handler) := []
+/-- successive calls of one amplifier object: stored effective gain after every call -/
+def edfaSeqH (j : Json) : R Json := do
+  let g ← fF j "eff_gain"
+  let pmax ← fF j "p_max"
+  let pins ← fList getF j "pin_db"
+  let mut e : Edfa Float := { effGain := g, pMax := pmax }
+  let mut out : List Json := []
+  for p in pins do
+    let (e', po) := e.call p
+    e := e'
+    out := out ++ [jObj [("eff_gain", jF e.effGain), ("pout_flat", jF po)]]
+  return Json.arr out.toArray
+
+/-- a line of (loss, amplifier) spans, a batch of launch powers: with and without the per-request copy -/
+def lineH (j : Json) : R Json := do
+  let spans ← fList (fun s => do
+    return ((← fF s "loss"), ({ effGain := ← fF s "eff_gain", pMax := ← fF s "p_max" } : Edfa Float))) j "spans"
+  let ps ← fList getF j "powers"
+  let c := planCopy spans ps
+  let s := planShared spans ps
+  return jObj [("copy", jList jF c.2), ("copy_gains", jList jF (c.1.map (·.2.effGain))),
+               ("shared", jList jF s.2), ("shared_gains", jList jF (s.1.map (·.2.effGain)))]
+
+/-- the pipeline: results of a batch = map of the per-request computation; the harness supplies the table
+request key -> result (computed alone) as `computeOne`; slot outcomes are a fold (here: a running count) -/
+def planH (j : Json) : R Json := do
+  let table ← fList (fun kv => do return ((← fStr kv "key"), (← fStr kv "result"))) j "alone"
+  let batch ← fList getStr j "batch"
+  let P : Pipeline (List (String × String)) String String Nat Nat :=
+    { computeOne := fun t k => (t.lookup k).getD "?", assign := fun n _ => (n + 1, n) }
+  let out := plan P table 0 batch
+  return jObj [("results", jList jStr out.results), ("slot_outs", jList jNat out.slotOuts),
+               ("settings_unchanged", jBool (out.settings == table))]
+
+def handlers : List (String × Handler) :=
+  [("c16.edfa_seq", edfaSeqH), ("c16.line", lineH), ("c16.plan", planH)]
 
 end Gnpy.Drv.C16
